@@ -14,7 +14,7 @@ import random
 from .. import evidence, tlc
 from ..common import MachineryError, Timer, log, pmap, seed, workdir
 from ..findings import Reporter
-from ..gsm_bind import canon, random_tree, show, to_items, to_items_shared, to_json
+from ..gsm_bind import canon, random_tree, show, to_items, to_items_pred, to_items_shared, to_json
 from ..tlaval import read_dump
 
 PROP = "C13"
@@ -53,6 +53,10 @@ def observe(case):
     m2 = match(sh, w)
     s2 = starts_with(sh, w)
     obs["shared"] = [m2 is not None, bool(nfa_match(sh, w)), s2.end if s2 is not None else 0]
+    # and with every atom written as a fresh predicate object (equal predicates, distinct objects)
+    m3 = match(to_items_pred(re_), w)
+    s3 = starts_with(to_items_pred(re_), w)
+    obs["pred"] = [m3 is not None, bool(nfa_match(to_items_pred(re_), w)), s3.end if s3 is not None else 0]
     return obs
 
 
@@ -75,6 +79,8 @@ def compare(case, v, res):
         return "StartsWithRecordsItsItems"
     if o.get("shared", [inl, inl, sp]) != [inl, inl, sp]:
         return "SharedSubPatterns"
+    if o.get("pred", [inl, inl, sp]) != [inl, inl, sp]:
+        return "AtomsAsPredicateObjects"
     if w:
         if o["alive"][-1] != viable:
             return "PatternAliveIsViable"
@@ -145,9 +151,9 @@ def run(tier: str) -> int:
             ev = {"id": k, "kind": "matchers", "re": to_json(case[0]), "w": list(case[1])}
             if res[0] == "ok":
                 o = res[1]
-                ev.update(exc="", match=o["match"], nfa=o["nfa"], sw=o["sw"], alive=o["alive"], acc=o["acc"], shared=o["shared"])
+                ev.update(exc="", match=o["match"], nfa=o["nfa"], sw=o["sw"], alive=o["alive"], acc=o["acc"], shared=o["shared"], pred=o["pred"])
             else:
-                ev.update(exc=res[1] if res[0] == "exc" else "timeout", match=False, nfa=False, sw=0, alive=[], acc=[], shared=[False, False, 0])
+                ev.update(exc=res[1] if res[0] == "exc" else "timeout", match=False, nfa=False, sw=0, alive=[], acc=[], shared=[False, False, 0], pred=[False, False, 0])
             f.write(json.dumps(ev) + "\n")
     a = tlc.run("MatcherTrace", tlc.cfg(spec="Spec", postcondition="AllConsumed"), wd, workers=1, env={"TRACE_FILE": str(trace)}, coverage=False)
     if a.violated or a.rc != 0:
@@ -222,9 +228,9 @@ def replay(path: str) -> int:
     ev = {"id": 0, "kind": "matchers", "re": to_json(re_), "w": list(w)}
     if res[0] == "ok":
         o = res[1]
-        ev.update(exc="", match=o["match"], nfa=o["nfa"], sw=o["sw"], alive=o["alive"], acc=o["acc"], shared=o["shared"])
+        ev.update(exc="", match=o["match"], nfa=o["nfa"], sw=o["sw"], alive=o["alive"], acc=o["acc"], shared=o["shared"], pred=o["pred"])
     else:
-        ev.update(exc=res[1] if res[0] == "exc" else "timeout", match=False, nfa=False, sw=0, alive=[], acc=[], shared=[False, False, 0])
+        ev.update(exc=res[1] if res[0] == "exc" else "timeout", match=False, nfa=False, sw=0, alive=[], acc=[], shared=[False, False, 0], pred=[False, False, 0])
     tr = wd / "t.ndjson"
     tr.write_text(json.dumps(ev) + "\n")
     a = tlc.run("MatcherTrace", tlc.cfg(spec="Spec", postcondition="AllConsumed"), wd, workers=1, env={"TRACE_FILE": str(tr)}, coverage=False)
